@@ -379,9 +379,17 @@ impl DspRuntime for WasmDspRuntime {
                         if next_global_state.len() != state_patch_plan.total_size {
                             next_global_state.resize(state_patch_plan.total_size, 0);
                         }
+                        // The host grows the state storage lazily, so before the first
+                        // dsp call the old storage is shorter than the old layout the
+                        // patch plan was computed from: the missing words are zeros.
+                        let mut old_data = old_data.clone();
+                        let old_total = old_skel.total_size() as usize;
+                        if old_data.len() < old_total {
+                            old_data.resize(old_total, 0);
+                        }
                         state_tree::patch::apply_patches(
                             next_global_state.as_mut_slice(),
-                            old_data,
+                            &old_data,
                             state_patch_plan.patches.as_slice(),
                         );
                     }
